@@ -327,7 +327,10 @@ class _ArbitraryConfig:
             raise AttributeError(name)
         vals = object.__getattribute__(self, "_vals")
         if name not in vals:
-            vals[name] = z3.Real(f"{object.__getattribute__(self, '_path')}.{name}")
+            nm = f"{object.__getattribute__(self, '_path')}.{name}"
+            # counts and sizes (num_loc, num_agents, n_ops_max, batch_size, ...) are arbitrary integers, everything else an arbitrary real
+            is_count = name.startswith(("num_", "n_", "max_num", "min_num")) or name.endswith(("_size", "_num", "_count"))
+            vals[name] = z3.Int(nm) if is_count else z3.Real(nm)
         return vals[name]
 
 
